@@ -219,3 +219,29 @@ func zzTx13OnlyCiphertext() {
 	zzsymAssert(len(raw)-len(out) == 5, "only_unified_header_in_front") // flags + 16-bit seq + length
 	zzsymCover("sealed")
 }
+
+// Receive side of the confidentiality property: on an established DTLS 1.2 connection (remote epoch 1 or 2, cipher
+// suite initialised) a record of type application_data carried in an UNPROTECTED record (epoch 0, any sequence number,
+// any payload bytes) is never delivered to Read; it is answered with a fatal unexpected_message alert. The cipher is
+// never consulted for it.
+//
+//symgo:entry covers=cleartext_appdata_refused
+func zzRxCleartextAppDataNotDelivered() {
+	suite, nw := &zzTxSuite{}, &zzTxNet{}
+	c := zzTxConn(suite, nw)
+	common := dtlsstate.CommonState(c.state)
+	common.SetRemoteEpoch(uint16(1 + zzsymChoice("remote_epoch", 2)))
+	common.SetLocalEpoch(1)
+	dtlshandshake.ZZMarkEstablished(c.handshakeEstablished)
+	c.replayProtectionWindow = 64
+	pay := zzsymBytes("pay", zzsymParam("NPAY"))
+	h := recordlayer.Header{ContentType: protocol.ContentTypeApplicationData, Version: protocol.Version1_2, Epoch: 0,
+		SequenceNumber: zzsymU64("seq") & recordlayer.MaxSequenceNumber, ContentLen: uint16(len(pay))}
+	raw, err := h.Marshal()
+	zzsymAssert(err == nil, "harness_header")
+	outcome, herr := c.handleIncomingPacket(context.Background(), append(raw, pay...), &net.UDPAddr{Port: 2}, nil)
+	zzsymAssert(len(c.decrypted) == 0, "cleartext_application_data_never_delivered")
+	zzsymAssert(herr != nil, "cleartext_application_data_is_an_error")
+	zzsymAssert(outcome.responseAlert != nil && outcome.responseAlert.Level == alert.Fatal, "cleartext_application_data_fatal_alert")
+	zzsymCover("cleartext_appdata_refused")
+}
